@@ -528,6 +528,7 @@ package raft
 //@   ensures  old_index_sends_nothing: index <= old(r.lastApplied) ==> sent(r.fsmMutateCh) == old(sent(r.fsmMutateCh))
 //@   ensures  no_skip: forall i uint64 :: old(r.lastApplied) < i && i <= index && !dom(futures, i) ==> r.logs.has[i]
 //@   ensures  futures_map_untouched: forall i uint64 :: dom(futures, i) == old(dom(futures, i))
+//@   at call (*deferError).respond#1 assert barrier_and_commands_go_through_the_fsm: futureOk && future.log.Type != LogBarrier && future.log.Type != LogCommand && (future.log.Type == LogConfiguration ==> r.protocolVersion <= 2) && arg1 == nil
 //@   at call (*Raft).processLogs$1#1 assert batch_in_order: (forall x int, y int :: 0 <= x && x < y && y < len(batch) ==> batch[x].log.Index < batch[y].log.Index) &&
 //@              (forall x int :: 0 <= x && x < len(batch) ==> batch[x] != nil && batch[x].log != nil && lastApplied < batch[x].log.Index && batch[x].log.Index <= index)
 //@   at call (*Raft).processLogs$1#2 assert batch_in_order: (forall x int, y int :: 0 <= x && x < y && y < len(batch) ==> batch[x].log.Index < batch[y].log.Index) &&
@@ -589,6 +590,8 @@ package raft
 //@              ==> r.commitIndex >= old(r.commitIndex)
 //@   ensures  commit_only_on_success: r.commitIndex != old(r.commitIndex) ==> aeResp(rpc).Success
 //@   ensures  leader_of_current_term: aeResp(rpc).Success ==> r.leaderID == ServerID(content(a.ID))
+//@   at call LogStore.StoreLogs#1 assert latest_configuration_survives_truncation: forall x uint64 :: old(r.logs.has[x]) && !r.logs.has[x] ==>
+//@              r.configurations.latestIndex < x || (r.configurations.latestIndex == r.configurations.committedIndex && r.configurations.latestIndex == old(r.configurations.committedIndex))
 //@   at call LogStore.StoreLogs#1 assert new_is_suffix: len(newEntries) <= len(a.Entries) && (forall k int :: 0 <= k && k < len(newEntries) ==>
 //@              newEntries[k] == a.Entries[len(a.Entries) - len(newEntries) + k])
 //@   at call LogStore.StoreLogs#1 assert skipped_match: forall j int :: 0 <= j && j < len(a.Entries) - len(newEntries) ==>
@@ -1339,3 +1342,29 @@ package raft
 //@   at call (*deferError).Error#1 assert restore_request_carries_the_snapshot: restore.meta == meta && restore.reader == reader && restore.errCh != nil && lastsent(r.userRestoreCh) == restore && sent(r.userRestoreCh) == old(sent(r.userRestoreCh)) + 1 && sent(r.applyCh) == old(sent(r.applyCh))
 //@   at call (*deferError).Error#2 assert noop_queued_after_the_restore_was_answered: noop.log.Type == LogNoop && noop.errCh != nil && lastsent(r.applyCh) == noop && sent(r.applyCh) == old(sent(r.applyCh)) + 1
 //@   at call (*deferError).Error#2 assert queued_future_has_shutdown_escape: noop.ShutdownCh == r.shutdownCh
+
+// C15: Open hands out a snapshot only after the checksum of the state file it is about to return
+// matched the checksum recorded in the metadata
+
+//@ func (f *FileSnapshotStore) readMeta
+//@   trusted reads and JSON-decodes meta.json (encoding/json and the file system are not modelled); writes no store state
+//@   requires nonnil: f != nil
+//@   modifies nothing
+//@   fresh result0
+//@   ensures  meta_or_error: (result1 == nil) == (result0 != nil)
+
+//@ func (f *FileSnapshotStore) Open
+//@   requires nonnil: f != nil && f.logger != nil
+//@   localonly
+//@   ensures  all_or_nothing: (result2 == nil) == (result0 != nil) && (result2 == nil) == (result1 != nil)
+//@   at call (*os.File).Seek#1 assert checksum_verified_before_handing_out: content(meta.CRC) == content(computed) && arg0 == fh
+//@   at call io.Copy#1 assert hashes_the_file_it_returns: cast(arg1, *os.File) == fh
+
+// the snapshot goroutine: a user's Snapshot() request is answered in the iteration that took it, with the
+// outcome of the snapshot attempt; an opener is attached only to a successful one
+//@ func (r *Raft) runSnapshots
+//@   requires nonnil: r != nil && r.logger != nil && r.snapshots != nil && r.logs != nil && r.trans != nil && typeis(r.conf.v, Config)
+//@   noinference
+//@   localonly
+//@   loop 1 step user_snapshot_answered: received(r.userSnapshotCh) != old(received(r.userSnapshotCh)) ==> answered(lastreceived(r.userSnapshotCh).deferError)
+//@   at call (*deferError).respond#1 assert answered_with_the_outcome: arg1 == err
